@@ -122,4 +122,13 @@ def templateField (ctx : Option BibData) (e : Entry) (name : Str) : Except Str S
 def pythonEngineField (db : BibData) (e : Entry) (name : Str) : Except Str Str :=
   templateField (some db) e name
 
+/-- The entry the BibTeX engine works with: `command_read` builds the parser with
+`person_fields=[]`, so an `author = {A and B}` field stays a plain field. -/
+def Entry.personsAsFields (e : Entry) : Entry :=
+  match e.persons.items with
+  | none => e
+  | some its =>
+    { e with fields := its.foldl (fun f p => f.setItem p.1 (joinWith andSep p.2)) e.fields,
+             persons := CIDict.empty }
+
 end Pybtex
